@@ -42,7 +42,7 @@ theorem Frames.mono_on {T T' : Typing} {e : Nat} {f : Nat → VCell} {top bp l o
 structure GcLaws (cl : CodeLaws ops) (gc : St H → St H) : Prop where
   frame : ∀ s, (gc s).stack = s.stack ∧ (gc s).bp = s.bp ∧ (gc s).ipL = s.ipL ∧ (gc s).ipO = s.ipO
   inv : ∀ s, cl.HInv s.heap → cl.HInv (gc s).heap
-  roots : ∀ s l bc, cl.code s.heap l = some bc →
+  roots : ∀ s l bc, cl.HInv s.heap → cl.code s.heap l = some bc →
     (l = s.ipL ∨ ∃ i o, i ≤ s.stack.sp ∧ s.stack.cellAt i = .instrPtr l o) →
     cl.code (gc s).heap l = some bc
 
@@ -58,7 +58,7 @@ theorem WFS.gc {cl : CodeLaws ops} {gc : St H → St H} (gl : GcLaws cl gc) {s :
   | none => rw [hc] at ht; cases ht
   | some bc =>
     rw [hc] at ht
-    rw [gl.roots s l1 bc hc hor]
+    rw [gl.roots s l1 bc hw.inv hc hor]
     exact ht
 
 /-- the state an evaluation starts in: `prepare_eval` has pointed `ip` at verified entry code, the
